@@ -8,6 +8,100 @@ IF = "src/allmydata/immutable/filenode.py"
 HU = "src/allmydata/util/hashutil.py"
 BL = "src/allmydata/blacklist.py"
 
+# NodeMaker.create_from_cap as it stands, and the same function split into helpers (key builder, uncached constructor,
+# blacklist wrapper; dict.get instead of try/except) - the faithful form of the refactor seeded as C18-I
+_CFC_OLD = (
+    '    def create_from_cap(self, writecap, readcap=None, deep_immutable=False, name=u"<unknown name>"):\n'
+    '        # this returns synchronously. It starts with a "cap string".\n'
+    '        assert isinstance(writecap, (bytes, type(None))), type(writecap)\n'
+    '        assert isinstance(readcap,  (bytes, type(None))), type(readcap)\n'
+    '\n'
+    '        bigcap = writecap or readcap\n'
+    '        if not bigcap:\n'
+    "            # maybe the writecap was hidden because we're in a readonly\n"
+    "            # directory, and the future cap format doesn't have a readcap, or\n"
+    '            # something.\n'
+    '            return UnknownNode(None, None)  # deep_immutable and name not needed\n'
+    '\n'
+    "        # The name doesn't matter for caching since it's only used in the error\n"
+    "        # attribute of an UnknownNode, and we don't cache those.\n"
+    '        if deep_immutable:\n'
+    '            memokey = b"I" + bigcap\n'
+    '        else:\n'
+    '            memokey = b"M" + bigcap\n'
+    '        try:\n'
+    '            node = self._node_cache[memokey]\n'
+    '        except KeyError:\n'
+    '            cap = uri.from_string(bigcap, deep_immutable=deep_immutable,\n'
+    '                                  name=name)\n'
+    '            node = self._create_from_single_cap(cap)\n'
+    '\n'
+    '            # node is None for an unknown URI, otherwise it is a type for which\n'
+    '            # is_mutable() is known. We avoid cacheing mutable nodes due to\n'
+    '            # ticket #1679.\n'
+    '            if node is None:\n'
+    "                # don't cache UnknownNode\n"
+    '                node = UnknownNode(writecap, readcap,\n'
+    '                                   deep_immutable=deep_immutable, name=name)\n'
+    '            elif node.is_mutable():\n'
+    '                self._node_cache[memokey] = node  # note: WeakValueDictionary\n'
+    '\n'
+    '        if self.blacklist:\n'
+    '            si = node.get_storage_index()\n'
+    '            # if this node is blacklisted, return the reason, otherwise return None\n'
+    '            reason = self.blacklist.check_storageindex(si)\n'
+    '            if reason is not None:\n'
+    '                # The original node object is cached above, not the ProhibitedNode wrapper.\n'
+    '                # This ensures that removing the blacklist entry will make the node\n'
+    '                # accessible if create_from_cap is called again.\n'
+    '                node = ProhibitedNode(node, reason)\n'
+    '        return node\n'
+    '\n')
+
+_CFC_SPLIT = (
+    '    @staticmethod\n'
+    '    def _memokey(writecap, readcap, deep_immutable):\n'
+    '        prefix = b"I" if deep_immutable else b"M"\n'
+    '        return prefix + (writecap or readcap)\n'
+    '\n'
+    '    def _create_uncached(self, writecap, readcap, deep_immutable, name):\n'
+    '        cap = uri.from_string(writecap or readcap, deep_immutable=deep_immutable,\n'
+    '                              name=name)\n'
+    '        node = self._create_from_single_cap(cap)\n'
+    '        if node is None:\n'
+    '            return UnknownNode(writecap, readcap,\n'
+    '                               deep_immutable=deep_immutable, name=name)\n'
+    '        return node\n'
+    '\n'
+    '    def _check_blacklist(self, node):\n'
+    '        if not self.blacklist:\n'
+    '            return node\n'
+    '        si = node.get_storage_index()\n'
+    '        reason = self.blacklist.check_storageindex(si)\n'
+    '        if reason is None:\n'
+    '            return node\n'
+    '        return ProhibitedNode(node, reason)\n'
+    '\n'
+    '    def create_from_cap(self, writecap, readcap=None, deep_immutable=False, name=u"<unknown name>"):\n'
+    '        assert isinstance(writecap, (bytes, type(None))), type(writecap)\n'
+    '        assert isinstance(readcap,  (bytes, type(None))), type(readcap)\n'
+    '\n'
+    '        if not (writecap or readcap):\n'
+    '            return UnknownNode(None, None)\n'
+    '\n'
+    '        memokey = self._memokey(writecap, readcap, deep_immutable)\n'
+    '        node = self._node_cache.get(memokey)\n'
+    '        if node is None:\n'
+    '            node = self._create_uncached(writecap, readcap, deep_immutable, name)\n'
+    '            if not isinstance(node, UnknownNode) and node.is_mutable():\n'
+    '                self._node_cache[memokey] = node\n'
+    '\n'
+    '        return self._check_blacklist(node)\n'
+    '\n')
+
+_SIG_OK = "    def _memokey(writecap, readcap, deep_immutable):\n"
+_CALL_OK = "        memokey = self._memokey(writecap, readcap, deep_immutable)\n"
+
 MUTANTS = [
     # ---- C18.1 decrypt only when writeable
     M("decrypt-always", D,
@@ -85,6 +179,58 @@ MUTANTS = [
       "    def _child_from_entry(self, rwcapdata, ro_uri):\n"
       "        return self._nodemaker.create_from_cap(rwcapdata or None, ro_uri)\n\n"
       "    def _create_readonly_node(self, node, name):\n", "C18.5"),
+    # ---- C18.5 through helpers (seeded C18-I): the same conditions, with the body of create_from_cap split up
+    M("split-memokey-params-swapped", NM, _CFC_OLD,
+      _CFC_SPLIT.replace(_SIG_OK, "    def _memokey(readcap, writecap, deep_immutable):\n"), "C18.5",
+      note="C18-I: the helper declares (readcap, writecap, ..) and is called with (writecap, readcap, ..): the cache is keyed "
+           "by the read cap while the node is built from the write cap"),
+    M("split-memokey-body-prefers-readcap", NM, _CFC_OLD,
+      _CFC_SPLIT.replace("        return prefix + (writecap or readcap)\n", "        return prefix + (readcap or writecap)\n"),
+      "C18.5"),
+    M("split-memokey-keywords-crossed", NM, _CFC_OLD,
+      _CFC_SPLIT.replace(_CALL_OK, "        memokey = self._memokey(writecap=readcap, readcap=writecap,\n"
+                                   "                                deep_immutable=deep_immutable)\n"), "C18.5"),
+    M("split-uncached-built-from-swapped-caps", NM, _CFC_OLD,
+      _CFC_SPLIT.replace("            node = self._create_uncached(writecap, readcap, deep_immutable, name)\n",
+                         "            node = self._create_uncached(readcap, writecap, deep_immutable, name)\n"), "C18.5",
+      note="the constructor helper parses 'writecap or readcap' of its own parameters, which are bound the other way round"),
+    M("split-filing-helper-keyed-by-readcap", NM, _CFC_OLD,
+      _CFC_SPLIT.replace("                self._node_cache[memokey] = node\n",
+                         "                self._remember(readcap or writecap, deep_immutable, node)\n")
+                .replace("    def _check_blacklist(self, node):\n",
+                         "    def _remember(self, capstring, deep_immutable, node):\n"
+                         "        self._node_cache[self._memokey(capstring, None, deep_immutable)] = node\n\n"
+                         "    def _check_blacklist(self, node):\n"), "C18.5",
+      note="a filing helper that is handed the wrong cap string: the key is judged where the cache is touched, in terms of "
+           "create_from_cap's own arguments"),
+    M("lookup-falls-back-to-readcap-key", NM,
+      "            node = self._node_cache[memokey]\n",
+      "            node = self._node_cache[memokey if memokey in self._node_cache else b\"M\" + (readcap or bigcap)]\n",
+      "C18.5"),
+    M("benign-split-into-helpers", NM, _CFC_OLD, _CFC_SPLIT, None,
+      note="the C18-I refactor done faithfully"),
+    M("benign-split-swapped-signature-bound-by-keyword", NM, _CFC_OLD,
+      _CFC_SPLIT.replace(_SIG_OK, "    def _memokey(readcap, writecap, deep_immutable):\n")
+                .replace(_CALL_OK, "        memokey = self._memokey(writecap=writecap, readcap=readcap,\n"
+                                   "                                deep_immutable=deep_immutable)\n"), None,
+      note="the helper's parameter order differs from create_from_cap's, but the call binds by keyword"),
+    M("benign-split-filing-helper", NM, _CFC_OLD,
+      _CFC_SPLIT.replace("                self._node_cache[memokey] = node\n",
+                         "                self._remember(memokey, node)\n")
+                .replace("    def _check_blacklist(self, node):\n",
+                         "    def _remember(self, key, node):\n"
+                         "        cache = self._node_cache\n        cache[key] = node\n\n"
+                         "    def _check_blacklist(self, node):\n"), None),
+    M("benign-cache-key-tuple", NM,
+      "        if deep_immutable:\n            memokey = b\"I\" + bigcap\n        else:\n            memokey = b\"M\" + bigcap\n",
+      "        memokey = (bool(deep_immutable), bigcap)\n", None),
+    M("benign-cache-key-conditional-expression", NM,
+      "        if deep_immutable:\n            memokey = b\"I\" + bigcap\n        else:\n            memokey = b\"M\" + bigcap\n",
+      "        memokey = (b\"I\" + bigcap) if deep_immutable else (b\"M\" + bigcap)\n", None),
+    M("split-helper-decorated", NM, _CFC_OLD,
+      _CFC_SPLIT.replace("    @staticmethod\n    def _memokey(", "    @staticmethod\n    @functools.lru_cache(None)\n    def _memokey(")
+                .replace("    def _check_blacklist(self, node):\n", "    import functools\n\n    def _check_blacklist(self, node):\n"),
+      "ANALYSIS-ERROR", note="a key builder behind a decorator is not followed: fail closed"),
     # ---- C18.6 writekey only for writeable caps
     M("writekey-for-any-mutable-cap", MF,
       "        if not filecap.is_readonly() and filecap.is_mutable():\n            self._writekey = self._uri.writekey\n",
